@@ -348,6 +348,179 @@ func serveOp(f []string) string {
 	return fmt.Sprintf("ok n=%d/%d", answered, k)
 }
 
+// svbig: datagrams of up to the largest size UDP carries, one at a time through the real Serve loop, whose
+// right answer is known by construction and depends on an option at the very END of the datagram - so a
+// receive path that sees only the first part of a long datagram (C01's quantifier is every datagram of
+// 0..65535 bytes) answers wrongly. Chain: server_id, dns.
+//   DHCPv6 A: SOLICIT, Client ID, padding options up to a chosen offset, then a Server Identifier  -> no reply (C14)
+//   DHCPv6 B: SOLICIT, Client ID, padding, then an option request for the DNS servers              -> ADVERTISE with option 23 (C17)
+//   DHCPv4 B: relayed DISCOVER, padding options, then a parameter request list naming option 6     -> OFFER with option 6 (C17)
+//   DHCPv4 A: the same ending in option 54 naming another server                                   -> no reply (C14)
+func bigOffsets(rng *rand.Rand, max int) []int {
+	offs := []int{700, 1024, 1472, 2048, 4096, 8192, 9000, 16384, 32768}
+	for i := 0; i < 3; i++ {
+		offs = append(offs, 600+rng.Intn(max-600))
+	}
+	var out []int
+	for _, o := range offs {
+		if o <= max {
+			out = append(out, o)
+		}
+	}
+	out = append(out, max)
+	return out
+}
+
+func bigOp(f []string) string {
+	serveSetup()
+	if serveChains.err != "" {
+		return "skip setup-" + serveChains.err
+	}
+	v6 := f[1] == "6"
+	var seed int64
+	fmt.Sscan(f[2], &seed)
+	rng := rand.New(rand.NewSource(seed))
+	r, why := newServeRun(v6, 1)
+	if r == nil {
+		return "skip " + why
+	}
+	defer r.close()
+	r.start()
+	var bad []string
+	n := 0
+	ask := func(dg []byte) []byte {
+		r.clients[0].Write(dg)
+		buf := make([]byte, 70000)
+		if v6 {
+			r.clients[0].SetReadDeadline(time.Now().Add(150 * time.Millisecond))
+			if k, err := r.clients[0].Read(buf); err == nil {
+				return buf[:k]
+			}
+			return nil
+		}
+		r.rx4.SetReadDeadline(time.Now().Add(150 * time.Millisecond))
+		if k, err := r.rx4.Read(buf); err == nil {
+			return buf[:k]
+		}
+		return nil
+	}
+	if v6 {
+		// 4 bytes header, 14 bytes Client ID (DUID-LL), then padding options (4-byte header each, body up to 60000)
+		for _, off := range bigOffsets(rng, 65000) {
+			for _, kind := range []string{"A", "B"} {
+				m, _ := dhcpv6.NewMessage()
+				m.MessageType = dhcpv6.MessageTypeSolicit
+				rng.Read(m.TransactionID[:])
+				m.AddOption(dhcpv6.OptClientID(&dhcpv6.DUIDLL{HWType: iana.HWTypeEthernet, LinkLayerAddr: net.HardwareAddr{2, 0, 0, 0, 9, byte(n)}}))
+				rest := off - len(m.ToBytes())
+				for rest >= 4 {
+					body := rest - 4
+					if body > 3000 {
+						body = 3000 - rng.Intn(200)
+						if rest-4-body < 4 { // never leave a remainder an option header does not fit in
+							body = rest - 4
+						}
+					}
+					m.AddOption(&dhcpv6.OptionGeneric{OptionCode: dhcpv6.OptionCode(250), OptionData: bytes.Repeat([]byte{0x5a}, body)})
+					rest -= 4 + body
+				}
+				if kind == "A" {
+					m.AddOption(dhcpv6.OptServerID(&dhcpv6.DUIDLL{HWType: iana.HWTypeEthernet, LinkLayerAddr: net.HardwareAddr{0, 0xde, 0xad, 0xbe, 0xef, 0x77}}))
+				} else {
+					m.AddOption(dhcpv6.OptRequestedOption(dhcpv6.OptionDNSRecursiveNameServer))
+				}
+				dg := m.ToBytes()
+				if len(dg) > 65507 {
+					continue
+				}
+				n++
+				rep := ask(dg)
+				if kind == "A" && rep != nil {
+					bad = append(bad, fmt.Sprintf("v6A-len%d-tail%d:answered", len(dg), off))
+				}
+				if kind == "B" {
+					ok := false
+					if rep != nil {
+						if pr, err := dhcpv6.FromBytes(rep); err == nil {
+							if im, err := pr.GetInnerMessage(); err == nil && im.MessageType == dhcpv6.MessageTypeAdvertise && len(im.Options.DNS()) == 1 && im.TransactionID == m.TransactionID {
+								ok = true
+							}
+						}
+					}
+					if !ok {
+						bad = append(bad, fmt.Sprintf("v6B-len%d-tail%d:%s", len(dg), off, map[bool]string{true: "no-reply", false: "reply-without-dns"}[rep == nil]))
+					}
+				}
+			}
+		}
+	} else {
+		for _, off := range bigOffsets(rng, 65000) {
+			for _, kind := range []string{"A", "B"} {
+				d, _ := dhcpv4.New(dhcpv4.WithMessageType(dhcpv4.MessageTypeDiscover), dhcpv4.WithHwAddr(net.HardwareAddr{2, 0, 0, 0, 8, byte(n)}))
+				rng.Read(d.TransactionID[:])
+				d.GatewayIPAddr = relayAddr()
+				b := d.ToBytes()
+				// strip the End option and the BOOTP padding the library added: options are appended by hand,
+				// in wire order (the library would sort them by code)
+				for len(b) > 240 && b[len(b)-1] == 0 {
+					b = b[:len(b)-1]
+				}
+				if b[len(b)-1] == 255 {
+					b = b[:len(b)-1]
+				}
+				code := byte(224)
+				for len(b)+2 < off {
+					body := off - len(b) - 2
+					if body > 255 {
+						body = 255 - rng.Intn(20)
+						if off-len(b)-2-body < 2 {
+							body = off - len(b) - 2 - 2
+						}
+					}
+					b = append(b, code, byte(body))
+					b = append(b, bytes.Repeat([]byte{0x5a}, body)...)
+					code++
+					if code == 255 {
+						code = 224
+					}
+				}
+				if kind == "A" {
+					b = append(b, 54, 4, 127, 0, 0, 77)
+				} else {
+					b = append(b, 55, 1, 6)
+				}
+				b = append(b, 255)
+				if len(b) > 65507 {
+					continue
+				}
+				n++
+				rep := ask(b)
+				if kind == "A" && rep != nil {
+					bad = append(bad, fmt.Sprintf("v4A-len%d-tail%d:answered", len(b), off))
+				}
+				if kind == "B" {
+					ok := false
+					if rep != nil {
+						if pr, err := dhcpv4.FromBytes(rep); err == nil && pr.MessageType() == dhcpv4.MessageTypeOffer && len(pr.DNS()) == 1 && pr.TransactionID == d.TransactionID {
+							ok = true
+						}
+					}
+					if !ok {
+						bad = append(bad, fmt.Sprintf("v4B-len%d-tail%d:%s", len(b), off, map[bool]string{true: "no-reply", false: "reply-without-dns"}[rep == nil]))
+					}
+				}
+			}
+		}
+	}
+	if len(bad) > 0 {
+		if len(bad) > 5 {
+			bad = append(bad[:5], fmt.Sprintf("and-%d-more", len(bad)-5))
+		}
+		return "wrong " + strings.Join(bad, " ")
+	}
+	return fmt.Sprintf("ok n=%d", n)
+}
+
 func replayServe(c *ctx, ops []string) {
 	for _, op := range ops {
 		f := strings.Fields(op)
@@ -359,6 +532,9 @@ func replayServe(c *ctx, ops []string) {
 				if f[0] == "svl2" {
 					return l2Op(f)
 				}
+				if f[0] == "svbig" {
+					return bigOp(f)
+				}
 				return serveOp(f)
 			})
 		})
@@ -369,7 +545,7 @@ func replayServe(c *ctx, ops []string) {
 func genServe(c *ctx) {
 	// the whole server through server.Start first: both sections with an empty chain, a chain that is empty after the
 	// protocol filter, one pass-through plugin; then one section alone
-	for _, op := range []string{"svstart 46 empty", "svstart 46 other", "svstart 46 dns", "svstart 6 empty", "svstart 4 other", "svl2 16"} {
+	for _, op := range []string{fmt.Sprintf("svbig 6 %d", c.rng.Int63n(1<<40)), fmt.Sprintf("svbig 4 %d", c.rng.Int63n(1<<40)), "svstart 46 empty", "svstart 46 other", "svstart 46 dns", "svstart 6 empty", "svstart 4 other", "svl2 16"} {
 		if c.count < c.n {
 			replayServe(c, []string{op})
 		}
